@@ -1,6 +1,6 @@
 (* Pins the C21 statements and prints what they depend on. Compiled on every run. *)
 From Coq Require Import Sorting.Sorted.
-From VP Require Import Base.Tactics Store.Model Store.Run Store.ProofsFs Store.ProofsMgr Store.ProofsC21 Store.Props.
+From VP Require Import Base.Tactics Store.Model Store.Run Store.ProofsFs Store.ProofsMgr Store.ProofsC21 Store.ProofsKeep Store.Props.
 Open Scope N_scope.
 
 Check (C21_recover_newest_complete :
@@ -29,6 +29,12 @@ Check (C21_older_recovered_when_newest_unreadable :
     decode b = None ->
     sdone (run encode max evs) = c1 :: c2 :: D ->
     fs_get (sfs (run encode max evs)) (FCk (cid c2)) <> None ->
+    recover decode (sfs (run encode max (evs ++ [ECorrupt b]))) = Ok (Some c2)).
+Check (C21_older_always_recovered_max2 :
+  forall encode decode, (forall c, decode (encode c) = Some c) ->
+  forall max evs b c1 c2 D, (2 <= max)%nat ->
+    Forall (fun e => match e with ECorrupt _ => False | _ => True end) evs ->
+    decode b = None -> sdone (run encode max evs) = c1 :: c2 :: D ->
     recover decode (sfs (run encode max (evs ++ [ECorrupt b]))) = Ok (Some c2)).
 Check (C21_bound_after_completed :
   forall encode max evs d, smgr (run encode max evs) <> None ->
@@ -87,6 +93,7 @@ Print Assumptions C21_recover_newest_complete.
 Print Assumptions C21_acknowledged_recovered.
 Print Assumptions C21_never_partial.
 Print Assumptions C21_older_recovered_when_newest_unreadable.
+Print Assumptions C21_older_always_recovered_max2.
 Print Assumptions C21_bound_after_completed.
 Print Assumptions C21_bound_all_states.
 Print Assumptions C21_ids_increase.
